@@ -7,3 +7,17 @@ pub type Fetch<'a, T> = &'a T;
 pub fn take_bitset(b: &mut BitSet) -> (r: BitSet)
     ensures r@ == old(b)@, final(b)@ == Set::<u32>::empty(),
 { unimplemented!() }
+
+// N13: `cfg!(panic = "abort")` is a build-configuration constant; both values are covered
+#[verifier::external_body]
+pub fn cfg_panic_abort() -> (r: bool) { unimplemented!() }
+
+// opaque payload of specs::error::Error::Custom (never constructed by the code under contract)
+#[verifier::external_body]
+#[derive(Debug)]
+pub struct BoxedErr { x: u8 }
+
+// TRUSTED: core::mem::forget consumes its argument without running its destructor and without
+// touching anything it borrows (the borrow simply ends: `has_resolved`).
+pub assume_specification<T>[core::mem::forget::<T>](t: T)
+    ensures has_resolved(t);
